@@ -1,4 +1,5 @@
 import Verif.Model.CRL
+import Verif.Generated.Locks
 /-!
   C08 — published CRLs are complete and strictly increasing.
 
@@ -822,4 +823,19 @@ example : (fun s : G × List Req => (numbers s.1, s.2.map (·.out), s.1.lock))
       [genReq 10, genFail 11 4, genReq 12])
       [.step 0, .step 0, .step 0, .step 0, .step 0, .step 0, .step 1, .step 1, .step 1, .step 1, .step 1,
        .step 2, .step 2, .step 2, .step 2, .step 2, .step 2]) = ([0, 1], [.ok, .err, .ok], false) := by decide
+/-! ## 6. the critical section as the code has it (regenerated table) -/
+
+/-- **crl_section.** Regenerated from /repo on every run (extractor table `Locks`):
+    `GenerateCertificateRevocationList` takes `crlMutex` at the top with a deferred unlock, and
+    `GetCRL`, `GetRevokedCertificates`, `CreateCRL` and `StoreCRL` are all present and all lie
+    lexically inside that section.  This is the hypothesis `mutex = true` / the five-step critical
+    section of `numbers_increase`, `on_revoke_visible` and `numbers_consecutive`; if the section
+    shrinks this obligation fails closed.  (Same statement as `Verif.Conc.crl_section` of C19, kept
+    here so that C08 does not depend on the build of another property's module.) -/
+theorem crl_section :
+    Verif.Generated.Locks.crlLockedAtTop = true ∧ Verif.Generated.Locks.crlCalls.all (·.2) = true ∧
+    ["GetCRL", "GetRevokedCertificates", "CreateCRL", "StoreCRL"].all
+      (fun n => Verif.Generated.Locks.crlCalls.any (·.1 == n)) = true := by
+  decide
+
 end Verif.CRL
